@@ -406,6 +406,8 @@ public:
 				push_back(v);
 			}
 			std::reverse(begin(), end());
+			unpad();
+			if (iszero()) setpos(); // zero has no sign
 			bSuccess = true;
 		}
 		return bSuccess;
